@@ -55,7 +55,9 @@ func (e *fbEndless) Read(p []byte) (int, error) {
 	return len(p), nil
 }
 
-func fbStreamBudgetOf(rawLen int) int64 { return int64(8<<20) + min(int64(1024*rawLen), 256<<20) }
+// fbStreamBudgetOf: limits.StreamBudget(rawLen), read from the library (hook of verif_tr.go) so
+// that the harness follows the constants of internal/limits.
+func fbStreamBudgetOf(rawLen int) int64 { return pdf.VerifTrStreamBudget(int64(rawLen)) }
 
 // fbChildSlurpCase: kind "slurp:<dict wire>" decodes body through DecodeStream; kind
 // "slurpdirect" calls FilterJBIG2.Decode on an endless reader with the budget of a raw stream of
